@@ -138,9 +138,15 @@ fn run_scenario(out: &mut Out, scn: &Value, r: &mut StdRng) {
                      "geoms": geoms.iter().map(|g| json!(pts(g))).collect::<Vec<_>>(), "out": o}));
     // identifiers and summary through the real plugins
     let nv = b.si.directed_graph.n_vertices();
-    let table: Vec<String> = (0..nv).map(|v| format!("uuid-{}-{}", v, (v * 7919) % 1000)).collect();
-    let upath = scratch_dir().join("uuids.txt");
-    std::fs::write(&upath, table.join("\n") + "\n").unwrap();
+    let mut table: Vec<String> = (0..nv).map(|v| format!("uuid-{}-{}", v, (v * 7919) % 1000)).collect();
+    // every other table is gzip-compressed, and some vertex in the middle has an empty identifier (an empty row): row i
+    // still belongs to vertex i
+    let gz = route.len() % 2 == 0;
+    if nv >= 3 && route.len() % 3 != 0 {
+        table[nv / 2] = String::new();
+    }
+    let upath = scratch_dir().join(if gz { "uuids.txt.gz" } else { "uuids.txt" });
+    crate::load::write_file(&upath, &(table.join("\n") + "\n"), gz);
     let plugin = UUIDOutputPlugin::from_file(&upath).map_err(|e| e.to_string()).unwrap();
     let mut output = json!({"request": {"origin_vertex": src.0, "destination_vertex": dst.0}});
     let (want_r, want_t) = (res.routes.iter().map(|x| x.len()).sum::<usize>(), res.trees.iter().map(|x| x.len()).sum::<usize>());
